@@ -164,7 +164,8 @@ PLAN = {
     "C19": c19,
     "C20": c20,
     "C01": lambda tier: all_drivers(tier) + [l for d in ALL_DRIVERS for l in san_legs(d, tier)] + san_legs("mpmc-bval", tier)
-                        + [l for w in ALL_WORKLOADS for l in conc_legs(w, tier, sanitizers=True)],
+                        + [l for w in ALL_WORKLOADS for l in conc_legs(w, tier, sanitizers=True)]
+                        + ([{"kind": "coverage", "name": "coverage"}] if tier == "thorough" else []),
     "C02": lambda tier: driver_legs("mutex", tier) + conc_legs("mutex", tier, sanitizers=True),
     "C03": lambda tier: driver_legs("mutex", tier) + conc_legs("mutex", tier),
     "C04": lambda tier: driver_legs("mutex", tier),
